@@ -38,7 +38,8 @@ def _net_uw(d):
 def _net_splits(thorough):
     reject = ["ddd.ddd.ddd.ddd/dd", "d.d.d.d/dd", "hhhh:hhhh::/ddd", "h::/ddd", "ddd.*"]
     t = ["d.d.d.d/d", "ddd.ddd.ddd.ddd/dd", "dd.d.ddd.dd/dd", "hhhh:hhhh::/ddd", "h:hh::/d", "hhh::/dd",
-         "d.*", "ddd.dd.*", "ddd.ddd.ddd.*", "d.**", "hhhh:*", "h:hh:hhh:hhhh:*", "*", "**"]
+         "d.*", "ddd.dd.*", "ddd.ddd.ddd.*", "d.**", "hhhh:*", "h:hh:hhh:hhhh:*", "*", "**",
+         "h:h:h::h:h:h:h", "hh::h:h:h:h:h:h/ddd"]
     if thorough:
         t += ["dd.dd.dd.dd/d", "d.dd.ddd.d/dd", "hhhh:hhhh:hhhh:hhhh::/ddd", "hh:h:hhh::/dd", "hhhh:hhhh:hhhh:hhhh:hhhh:hhhh:hhhh:*",
               "ddd.ddd.ddd.ddd", "hhhh:hhhh:hhhh:hhhh:hhhh:hhhh:hhhh:hhhh", "::hhhh/ddd", "::/d"]
@@ -81,6 +82,11 @@ RECIPES["C12"] = {
          "splits": {"all": [{"PART_OWN": None}, {"PART_REF": None}, {"PART_IDEM": None}]},
          "defs": {"quick": {"VP_GROUPMAX": "0xf"}, "thorough": {}},
          "unwind": 44, "unwindset": _NTOP6_UW, "timeout": {"quick": 900, "thorough": 3400}},
+        # full digit widths in the quick tier too: groups 2 and 5 over their whole 16-bit range
+        # (every digit-count boundary), the other groups fixed
+        {"name": "ntop6w", "tiers": ["quick"], "src": ["C12_ntop.c"] + MISC,
+         "splits": {"all": [{"PART_OWN": None, "PART_REF": None, "VP_WIDE2": None}]},
+         "unwind": 44, "unwindset": _NTOP6_UW, "timeout": 900},
         {"name": "ntop4", "src": ["C12_ntop.c"] + MISC,
          "splits": {"all": [{"V4": None, "PART_OWN": None, "PART_REF": None, "PART_IDEM": None}]},
          "unwind": 44, "unwindset": _NTOP4_UW, "timeout": 900},
@@ -256,6 +262,8 @@ def _line_splits(thorough):
         if t.startswith("7 ") or t == "7" or t.startswith("7  "):
             d["VP_ID_LIVE"] = None
         out.append(d)
+    for i, (t1, t2) in enumerate([("7 U a a a", "7 c"), ("7 c a a", "7 c")] + ([("-1 X a a a a", "7 c a"), ("7 c", "7")] if thorough else [])):
+        out.append({"_name": "pair%02d" % i, "VP_TMPL": '"%s"' % t1, "VP_TMPL2": '"%s"' % t2, "VP_ID_LIVE": None})
     for i, t in enumerate(other):
         d = {"_name": "other%02d" % i, "VP_TMPL": '"%s"' % t}
         if t[0] == "3":
@@ -390,6 +398,7 @@ def _merge_scen(thorough):
         ("obj_inplace", 0x10 | 0x20 | 0x01, 0x10 | 0x20 | 0x01, reg(o=1, oa=1)),   # same membership, values may change in place
         ("obj_gone", 0x10 | 0x20 | 0x02, 0x02, reg(b=2)),                           # unregistered object disappears with its child
         ("reg_after", 0x01 | 0x10 | 0x20, 0x01 | 0x10, reg(a=2, o=2, oa=2)),       # registered after a file created the nodes
+        ("reg_after_then_omit", 0x01 | 0x10 | 0x20, 0, reg(a=2, o=2, oa=2)),  # created by a file, adopted by code, then omitted
         ("empty_then_full", 0, 0x01 | 0x02 | 0x10 | 0x20, reg(a=1, o=1)),
         ("full_then_empty", 0x01 | 0x02 | 0x10 | 0x20, 0, reg(a=1, o=1, oa=1)),
     ]
